@@ -37,6 +37,12 @@ enum AView {
     /// `(resu G (views))`: the reverse of `resv`: the reader shows the views WHILE the resource is loading and nothing once it has a
     /// value, so that the boundaries and tasks inside the views are disposed in the middle of the render
     ResUntil(u32, Vec<AView>),
+    /// `(flip G)`: a suspense task of the surrounding boundary that waits for gate G and then sets the flag G (shows nothing).
+    /// `(when G (views))` / `(unless G (views))`: dynamic views showing the views once / until the flag G is set: content -- boundaries
+    /// and tasks included -- that is created resp. disposed in the middle of the render by a task registered somewhere else
+    Flip(u32),
+    When(u32, Vec<AView>),
+    Unless(u32, Vec<AView>),
     /// `(live)`: a dynamic text showing a signal ("alive") that a cleanup callback of the surrounding scope sets to "gone": what is
     /// rendered must be the state the render reached, not the state after its scopes were disposed
     Live,
@@ -44,12 +50,23 @@ enum AView {
 
 thread_local! {
     static RESOURCES: RefCell<HashMap<u32, Resource<u32>>> = RefCell::new(HashMap::new());
+    static FLAGS: RefCell<HashMap<u32, sycamore_reactive::Signal<bool>>> = RefCell::new(HashMap::new());
+}
+
+fn flag(g: u32) -> sycamore_reactive::Signal<bool> {
+    FLAGS.with(|m| *m.borrow().get(&g).expect("flag prepared"))
 }
 
 /// create the resources of all `resv` nodes, in the current (render) scope
 fn prepare_resources(v: &AView, gates: &Gates) {
     match v {
         AView::Text(_) | AView::Live => {}
+        AView::Flip(g) => {
+            // (created in the render scope, outside every boundary and dynamic view)
+            let s = sycamore_reactive::create_signal(false);
+            FLAGS.with(|m| m.borrow_mut().insert(*g, s));
+        }
+        AView::When(_, ch) | AView::Unless(_, ch) => ch.iter().for_each(|c| prepare_resources(c, gates)),
         AView::El(_, ch) | AView::Dyn(ch) | AView::ClientResView(ch) => ch.iter().for_each(|c| prepare_resources(c, gates)),
         AView::Sus(fb, ch) | AView::Trans(fb, ch) => {
             fb.iter().for_each(|c| prepare_resources(c, gates));
@@ -86,6 +103,9 @@ fn parse(s: &Sx) -> AView {
         "dyn" => AView::Dyn(l[1].list().iter().map(parse).collect()),
         "resv" => AView::ResView(l[1].num(), l[2].list().iter().map(parse).collect()),
         "resu" => AView::ResUntil(l[1].num(), l[2].list().iter().map(parse).collect()),
+        "flip" => AView::Flip(l[1].num()),
+        "when" => AView::When(l[1].num(), l[2].list().iter().map(parse).collect()),
+        "unless" => AView::Unless(l[1].num(), l[2].list().iter().map(parse).collect()),
         "live" => AView::Live,
         "cresv" => AView::ClientResView(l[1].list().iter().map(parse).collect()),
         x => panic!("bad async view {x}"),
@@ -146,6 +166,21 @@ fn build(v: &AView, gates: &Gates) -> View {
                 Some(_) => build_all(&vs, &gates),
             })
         }
+        AView::Flip(g) => {
+            let rx = gates.borrow_mut().remove(g).unwrap_or_else(|| panic!("gate {g} used twice"));
+            let f = flag(*g);
+            sycamore_futures::create_suspense_task(async move {
+                let _ = rx.await;
+                f.set(true);
+            });
+            View::default()
+        }
+        AView::When(g, vs) | AView::Unless(g, vs) => {
+            let f = flag(*g);
+            let want = matches!(v, AView::When(..));
+            let (vs, gates) = (vs.clone(), gates.clone());
+            View::from_dynamic(move || if f.get() == want { build_all(&vs, &gates) } else { View::default() })
+        }
         AView::Live => {
             let s = sycamore_reactive::create_signal("alive".to_string());
             sycamore_reactive::on_cleanup(move || s.set("gone".to_string()));
@@ -183,6 +218,8 @@ fn build(v: &AView, gates: &Gates) -> View {
 fn gates_of(v: &AView, out: &mut Vec<u32>) {
     match v {
         AView::Text(_) | AView::Live => {}
+        AView::Flip(g) => out.push(*g),
+        AView::When(_, ch) | AView::Unless(_, ch) => ch.iter().for_each(|c| gates_of(c, out)),
         AView::El(_, ch) => ch.iter().for_each(|c| gates_of(c, out)),
         AView::Sus(fb, ch) | AView::Trans(fb, ch) => {
             fb.iter().for_each(|c| gates_of(c, out));
